@@ -205,17 +205,13 @@ def main():
         if s:
             rep.sample(s)
     rep.extra["observations_by_kind"] = {k: sum(1 for o in obs if o["k"] == k) for k in ("lum", "ratio", "level", "pair", "bulk")}
-    for bad in agg["bad"]:
-        tr = traces[bad["tid"]]
-        if bad["incon"]:
-            rep.inconclusive += 1
-        if bad["fails"]:
-            # locate the failing observations by re-judging one event at a time
-            single = vlib.validate_traces("TrWcag", [[e] for e in tr], shards=1)
-            for b2 in single["bad"]:
-                if b2["fails"]:
-                    rep.violation("/".join(b2["fails"]), {"observation": tr[b2["tid"]], "clauses": b2["fails"],
-                                  "reproduce": "see harness/c05.py: the observation names the function inputs"})
+    rep.inconclusive += sum(1 for b in agg["bad"] if b["incon"])
+    hits, more = vlib.pinpoint("TrWcag", traces, agg)
+    for tid, j, fl in hits:
+        rep.violation("/".join(fl), {"observation": traces[tid][j], "clauses": fl,
+                      "reproduce": "see harness/c05.py: the observation names the function inputs"})
+    if more:
+        print(f"NOTE: {more} further failing batches not itemised")
     if t == "thorough":
         lum_all(rep)
     return rep.finish()
